@@ -1,16 +1,28 @@
 import ShredModel.Model.Access
 /-!
-# `World` — mirror of `src/world/mod.rs`, `entry.rs`, `setup.rs` and of the part of
-`atomic_refcell` that shred uses
+# `World` — mirror of `src/world/mod.rs`, `entry.rs`, `setup.rs`, the borrowing part of
+`src/world/data.rs` / `src/meta.rs` (iterators) and of the part of `atomic_refcell` that shred uses
 
-A world is an association list `ResourceId ↦ Cell`. A cell carries the *type tag of the
-boxed value* (what `Any::type_id` would answer), a token identifying the value (for drop
-accounting), and the borrow counter of its `AtomicRefCell`. Guards are handles into a
-table; a handle records the cell it borrows and whether exclusively. `&mut World`
-operations require an empty guard table (Rust's borrow checker guarantees that).
+A world is an association list `ResourceId ↦ Cell`. A cell carries the *type tag of the boxed
+value* (what `Any::type_id` would answer), a token identifying the value (for drop accounting),
+and the borrow counter of its `AtomicRefCell` (`0` = `free`, `n` = `shared n`, high bit = `excl`).
+Guards are handles into a table; a handle records the cell it borrows and whether exclusively.
+`&mut World` operations are only legal with an empty guard table (Rust's borrow checker
+guarantees that); this is a hypothesis of the theorems, not built into the functions.
+
+Three ghost lists do the drop accounting of C09: `created` (every value that ever came into
+existence through a call: arguments passed by value, results of the `or_insert_with` closure /
+`Default::default`), `returned` (values handed back to the caller by `remove`), `dropped`
+(values whose destructor ran inside a call).
+
+Each function treats one cell operation (`try_borrow`, `borrow_mut`, the guard's `drop`) as one
+atomic step; the atomics of `atomic_refcell` are not modelled (see notes/C08.md).
+Core Lean only: this file is linked into the driver executable.
 -/
 namespace Shred
 
+/-- `AtomicRefCell.borrow`: `0`, `n` (n shared borrows), `HIGH_BIT` (+ benign failed-borrow
+increments, which `AtomicBorrowRefMut::drop` wipes with `store(0)`) -/
 inductive Borrow | free | shared (n : Nat) | excl
 deriving DecidableEq, Repr
 
@@ -25,41 +37,70 @@ structure Guard where
   excl : Bool
 deriving DecidableEq, Repr
 
+/-- panic payloads, classified by message text -/
 inductive WPanic
-  | wrongType         -- "Passed a `ResourceId` with a wrong type ID"
-  | borrowed          -- "already borrowed" / "already mutably borrowed"
-  | absent            -- fetch_panic!()
+  | wrongType                  -- "Passed a `ResourceId` with a wrong type ID" (assert_same_type_id, mod.rs l.161)
+  | absent                     -- fetch_panic!() (setup.rs l.3)
+  | alreadyBorrowed            -- "<T>: already borrowed"  (`try_fetch_mut`: Display of `BorrowMutError`)
+  | alreadyMutablyBorrowed     -- "already mutably borrowed" (`try_fetch`; `borrow()`; `borrow_mut()` on an exclusive cell)
+  | alreadyImmutablyBorrowed   -- "already immutably borrowed" (`borrow_mut()` on a shared cell)
+deriving DecidableEq, Repr
+
+/-- which flavour of cell access a fetch uses: `try_borrow(_mut)` + shred's own `panic!` (typed
+forms, mod.rs l.431/487) or the panicking `borrow()` / `borrow_mut()` of the cell (by-id forms
+l.457/512, `Entry::or_insert_with`, meta iterators) -/
+inductive Form | typed | byId
 deriving DecidableEq, Repr
 
 structure World where
   cells : List (ResId × Cell) := []
   guards : List (Nat × Guard) := []      -- live guards by handle
   nextHandle : Nat := 0
+  created : List Nat := []               -- tokens of values that came into existence
+  returned : List Nat := []              -- tokens handed back to the caller (`remove`)
   dropped : List Nat := []               -- tokens of values dropped so far
 deriving Repr
 
-namespace World
+/-! ## the resource table (a `HashMap`: only lookups, replacement and removal are used) -/
 
-def get (w : World) (k : ResId) : Option Cell := (w.cells.find? fun p => p.1 == k).map (·.2)
+def lookupCell (k : ResId) : List (ResId × Cell) → Option Cell
+  | [] => none
+  | p :: rest => if p.1 = k then some p.2 else lookupCell k rest
 
-def setCell (cells : List (ResId × Cell)) (k : ResId) (c : Cell) : List (ResId × Cell) :=
-  if cells.any (fun p => p.1 == k) then cells.map fun p => if p.1 == k then (k, c) else p
-  else cells ++ [(k, c)]
+/-- `HashMap::insert`: replace the entry of `k`, or add one -/
+def setCell (k : ResId) (c : Cell) : List (ResId × Cell) → List (ResId × Cell)
+  | [] => [(k, c)]
+  | p :: rest => if p.1 = k then (k, c) :: rest else p :: setCell k c rest
 
-def eraseCell (cells : List (ResId × Cell)) (k : ResId) : List (ResId × Cell) :=
-  cells.filter fun p => !(p.1 == k)
+/-- `HashMap::remove` -/
+def eraseCell (k : ResId) : List (ResId × Cell) → List (ResId × Cell)
+  | [] => []
+  | p :: rest => if p.1 = k then eraseCell k rest else p :: eraseCell k rest
+
+/-! ## the guard table -/
+
+def findGuard (h : Nat) : List (Nat × Guard) → Option Guard
+  | [] => none
+  | p :: rest => if p.1 = h then some p.2 else findGuard h rest
+
+def dropGuard (h : Nat) : List (Nat × Guard) → List (Nat × Guard)
+  | [] => []
+  | p :: rest => if p.1 = h then rest else p :: dropGuard h rest
 
 /-- result of one operation -/
 inductive Out
   | unit
   | bool (b : Bool)
-  | guard (h : Nat)
+  | guard (h : Nat) (token : Nat)     -- a guard with handle `h`; dereferencing it shows `token`
   | none
-  | value (token : Nat)          -- `remove` returned the stored value
+  | value (token : Nat)               -- `remove` returned the stored value
+  | seen (token : Nat)                -- `get_mut` / a scoped `entry` guard showed this value
+  | data (fields : List (Option (Nat × Nat)))   -- composite system data: (handle, token) per field, `none` = `Option` field is `None`
   | panic (p : WPanic)
 deriving DecidableEq, Repr
 
-/-- `try_borrow` / `try_borrow_mut` on the cell -/
+/-- `AtomicBorrowRef::try_new` (fetch_add 1, fails if the high bit is set) /
+`AtomicBorrowRefMut::try_new` (compare_exchange 0 → HIGH_BIT) -/
 def tryBorrow (b : Borrow) (excl : Bool) : Option Borrow :=
   match b, excl with
   | .free, false => some (.shared 1)
@@ -67,69 +108,271 @@ def tryBorrow (b : Borrow) (excl : Bool) : Option Borrow :=
   | .free, true => some .excl
   | _, _ => none
 
-/-- the common core of all fetches: `tyArg` is `Some T` for the `_by_id` forms (type assertion
-first), `orPanic` distinguishes `fetch` from `try_fetch` when the resource is absent -/
-def acquire (w : World) (tyArg : Option Nat) (k : ResId) (excl orPanic : Bool) : World × Out :=
-  match tyArg with
-  | some t => if t ≠ k.ty then (w, .panic .wrongType) else go
-  | none => go
-where
-  go : World × Out :=
-    match w.get k with
-    | none => (w, if orPanic then .panic .absent else .none)
-    | some c =>
-      match tryBorrow c.borrow excl with
-      | none => (w, .panic .borrowed)
-      | some b' =>
-        let h := w.nextHandle
-        ({ w with cells := setCell w.cells k { c with borrow := b' },
-                  guards := w.guards ++ [(h, ⟨k, excl⟩)], nextHandle := h + 1 }, .guard h)
+/-- the text of the panic when the borrow fails -/
+def borrowPanic (f : Form) (b : Borrow) (excl : Bool) : WPanic :=
+  match f, excl, b with
+  | .typed, true, _ => .alreadyBorrowed                 -- Display of BorrowMutError
+  | .byId, true, .shared _ => .alreadyImmutablyBorrowed  -- borrow_mut(): old & HIGH_BIT == 0
+  | _, _, _ => .alreadyMutablyBorrowed
+
+/-- `AtomicBorrowRef::drop` (fetch_sub 1) / `AtomicBorrowRefMut::drop` (store 0) -/
+def releaseBorrow (b : Borrow) (excl : Bool) : Borrow :=
+  match excl, b with
+  | true, _ => .free
+  | false, .shared (n + 2) => .shared (n + 1)
+  | false, .shared _ => .free
+  | false, b => b
+
+namespace World
+
+def get (w : World) (k : ResId) : Option Cell := lookupCell k w.cells
+
+/-- the common core of all fetches: look the cell up, borrow it, wrap the borrow in a guard.
+`orPanic` distinguishes `fetch` (`unwrap_or_else(fetch_panic!)`) from `try_fetch`. -/
+def fetchCore (w : World) (k : ResId) (excl : Bool) (f : Form) (orPanic : Bool) : World × Out :=
+  match w.get k with
+  | none => (w, if orPanic then .panic .absent else .none)
+  | some c =>
+    match tryBorrow c.borrow excl with
+    | none => (w, .panic (borrowPanic f c.borrow excl))
+    | some b' =>
+      ({ w with cells := setCell k { c with borrow := b' } w.cells,
+                guards := w.guards ++ [(w.nextHandle, ⟨k, excl⟩)],
+                nextHandle := w.nextHandle + 1 }, .guard w.nextHandle c.token)
+
+/-- `try_fetch::<T>()` (l.424) -/
+def tryFetch (w : World) (ty : Nat) := fetchCore w ⟨ty, 0⟩ false .typed false
+/-- `try_fetch_mut::<T>()` (l.480) -/
+def tryFetchMut (w : World) (ty : Nat) := fetchCore w ⟨ty, 0⟩ true .typed false
+/-- `fetch::<T>()` (l.406) -/
+def fetch (w : World) (ty : Nat) := fetchCore w ⟨ty, 0⟩ false .typed true
+/-- `fetch_mut::<T>()` (l.472) -/
+def fetchMut (w : World) (ty : Nat) := fetchCore w ⟨ty, 0⟩ true .typed true
+/-- `try_fetch_by_id::<T>(id)` (l.451): type assertion first -/
+def tryFetchById (w : World) (tyArg : Nat) (k : ResId) : World × Out :=
+  if tyArg ≠ k.ty then (w, .panic .wrongType) else fetchCore w k false .byId false
+/-- `try_fetch_mut_by_id::<T>(id)` (l.506) -/
+def tryFetchMutById (w : World) (tyArg : Nat) (k : ResId) : World × Out :=
+  if tyArg ≠ k.ty then (w, .panic .wrongType) else fetchCore w k true .byId false
 
 /-- dropping a guard (`AtomicBorrowRef::drop` / `AtomicBorrowRefMut::drop`) -/
 def release (w : World) (h : Nat) : World :=
-  match w.guards.find? fun p => p.1 == h with
+  match findGuard h w.guards with
   | none => w
-  | some (_, g) =>
-    let guards := w.guards.filter fun p => !(p.1 == h)
+  | some g =>
     match w.get g.key with
-    | none => { w with guards := guards }
+    | none => { w with guards := dropGuard h w.guards }
     | some c =>
-      let b' := match c.borrow with
-        | .shared (n + 2) => Borrow.shared (n + 1)
-        | _ => Borrow.free
-      { w with guards := guards, cells := setCell w.cells g.key { c with borrow := b' } }
+      { w with guards := dropGuard h w.guards,
+               cells := setCell g.key { c with borrow := releaseBorrow c.borrow g.excl } w.cells }
 
-/-- `Fetch::clone` -/
+/-- `Fetch::clone` (l.51) = `AtomicRef::clone` = a second shared borrow of the same cell
+(`try_new(..).unwrap()`). Only a live shared guard can be cloned (there is no `Clone` for
+`FetchMut`, and a dead handle is not a value in Rust): anything else answers `none`. -/
 def cloneGuard (w : World) (h : Nat) : World × Out :=
-  match w.guards.find? fun p => p.1 == h with
-  | some (_, g) => if g.excl then (w, .none) else acquire w none g.key false true
+  match findGuard h w.guards with
+  | some g => if g.excl then (w, .none) else fetchCore w g.key false .byId false
   | none => (w, .none)
 
-/-! `&mut World` operations (no live guards) -/
+/-- `MetaIter::next` / `MetaIterMut::next` (meta.rs l.75/168) from position `idx` of the type
+list: skip the types whose resource is absent, borrow the first present one with the panicking
+`borrow()` / `borrow_mut()`; the index is advanced *before* borrowing. Third component = new index. -/
+def metaScan (w : World) (excl : Bool) : List Nat → Nat → World × Out × Nat
+  | [], idx => (w, .none, idx)
+  | ty :: rest, idx =>
+    match w.get ⟨ty, 0⟩ with
+    | none => metaScan w excl rest (idx + 1)
+    | some _ =>
+      let r := fetchCore w ⟨ty, 0⟩ excl .byId false
+      (r.1, r.2, idx + 1)
 
-/-- `insert_by_id::<R>(id, r)`; `R = tyArg`, the new value has that type -/
+def metaNext (w : World) (tys : List Nat) (idx : Nat) (excl : Bool) : World × Out × Nat :=
+  metaScan w excl (tys.drop idx) idx
+
+/-! ## `&mut World` operations (legal only with no live guards) -/
+
+/-- `insert_by_id::<R>(id, r)` (l.526); `R = tyArg`, the new value `r` has that type. On the type
+assertion failing `r` is dropped by the unwinding; a replaced value is dropped. -/
 def insertById (w : World) (tyArg : Nat) (k : ResId) (token : Nat) : World × Out :=
-  if tyArg ≠ k.ty then ({ w with dropped := w.dropped ++ [token] }, .panic .wrongType)
+  if tyArg ≠ k.ty then
+    ({ w with created := w.created ++ [token], dropped := w.dropped ++ [token] }, .panic .wrongType)
   else
-    let old := (w.get k).map (·.token)
-    ({ w with cells := setCell w.cells k ⟨tyArg, token, .free⟩,
-              dropped := w.dropped ++ old.toList }, .unit)
+    ({ w with cells := setCell k ⟨tyArg, token, .free⟩ w.cells,
+              created := w.created ++ [token],
+              dropped := w.dropped ++ ((w.get k).map (·.token)).toList }, .unit)
 
-/-- `remove_by_id::<R>(id)` -/
+/-- `insert::<R>(r)` (l.233) -/
+def insert (w : World) (ty : Nat) (token : Nat) := insertById w ty ⟨ty, 0⟩ token
+
+/-- `remove_by_id::<R>(id)` (l.543) -/
 def removeById (w : World) (tyArg : Nat) (k : ResId) : World × Out :=
   if tyArg ≠ k.ty then (w, .panic .wrongType)
   else match w.get k with
     | none => (w, .none)
-    | some c => ({ w with cells := eraseCell w.cells k }, .value c.token)
+    | some c => ({ w with cells := eraseCell k w.cells, returned := w.returned ++ [c.token] }, .value c.token)
 
-def hasValue (w : World) (k : ResId) : Bool := (w.get k).isSome
+/-- `remove::<R>()` (l.249) -/
+def remove (w : World) (ty : Nat) := removeById w ty ⟨ty, 0⟩
 
-/-- `entry::<R>().or_insert_with(f)`: inserts only into a vacant slot -/
-def entryOrInsert (w : World) (ty : Nat) (token : Nat) : World × Out :=
+/-- `has_value_raw(id)` (l.265) -/
+def hasValueRaw (w : World) (k : ResId) : World × Out := (w, .bool (w.get k).isSome)
+/-- `has_value::<R>()` (l.257) -/
+def hasValue (w : World) (ty : Nat) := hasValueRaw w ⟨ty, 0⟩
+
+/-- `get_mut_raw(id)` (l.583) -/
+def getMutRaw (w : World) (k : ResId) : World × Out :=
+  (w, match w.get k with | some c => .seen c.token | none => .none)
+/-- `get_mut::<T>()` (l.576) -/
+def getMut (w : World) (ty : Nat) := getMutRaw w ⟨ty, 0⟩
+
+/-- `entry::<R>().or_insert_with(f)` (entry.rs l.45): the closure runs — a value with token
+`token` comes into existence — only if the slot is vacant; then `borrow_mut()` on the cell.
+`byValue = true` is `or_insert(v)`: `v` exists before the call and is dropped if unused. -/
+def entryOrInsert (w : World) (ty : Nat) (token : Nat) (byValue : Bool) : World × Out :=
   let k : ResId := ⟨ty, 0⟩
   match w.get k with
-  | some _ => ({ w with dropped := w.dropped ++ [token] }, .unit)   -- `or_insert(v)`: `v` dropped unused
-  | none => ({ w with cells := setCell w.cells k ⟨ty, token, .free⟩ }, .unit)
+  | some _ =>
+    fetchCore (if byValue then { w with created := w.created ++ [token], dropped := w.dropped ++ [token] } else w)
+      k true .byId false
+  | none =>
+    fetchCore { w with cells := setCell k ⟨ty, token, .free⟩ w.cells, created := w.created ++ [token] }
+      k true .byId false
+
+/-- an `entry` call whose `FetchMut<'a, R>` (it keeps the `&'a mut World` borrow alive, so no
+other call can happen while it lives) is looked at and dropped -/
+def entryScoped (w : World) (ty : Nat) (token : Nat) (byValue : Bool) : World × Out :=
+  match entryOrInsert w ty token byValue with
+  | (w', .guard h t) => (release w' h, .seen t)
+  | r => r
+
+/-! ## composite system data (`system_data`, `setup`, `exec`) -/
+
+/-- one leaf of a `SystemData` tuple: `Read<T, F>` / `Write<T, F>` / `Option<Read<T>>` /
+`Option<Write<T>>`; `dflt` = the setup handler is `DefaultProvider` (else `PanicHandler`) -/
+structure SdItem where
+  ty : Nat
+  write : Bool
+  opt : Bool
+  dflt : Bool
+deriving DecidableEq, Repr
+
+/-- `SystemData::fetch` of a tuple (system.rs `impl_data!`): the fields are fetched left to
+right (`fetch` / `fetch_mut` for `Read` / `Write`, `try_fetch(_mut)` for the `Option` forms,
+data.rs l.64/130/155/175); when a later field panics the earlier guards are dropped by the
+unwinding. -/
+def sysData (w : World) : List SdItem → World × Out
+  | [] => (w, .data [])
+  | it :: rest =>
+    match fetchCore w ⟨it.ty, 0⟩ it.write .typed (!it.opt) with
+    | (w1, .guard h t) =>
+      match sysData w1 rest with
+      | (w2, .data fs) => (w2, .data (some (h, t) :: fs))
+      | (w2, o) => (release w2 h, o)
+    | (w1, .none) =>
+      match sysData w1 rest with
+      | (w2, .data fs) => (w2, .data (none :: fs))
+      | r => r
+    | r => r
+
+/-- `SystemData::setup` of a tuple: `DefaultProvider::setup` = `entry().or_insert_with(T::default)`
+(setup.rs l.35) for `Read`/`Write` with the default handler, nothing otherwise. Each created
+default takes the next token of `toks`; returns the unused tokens. -/
+def setup (w : World) : List SdItem → List Nat → World × List Nat
+  | [], toks => (w, toks)
+  | it :: rest, toks =>
+    if it.dflt && !it.opt then
+      match (w.get ⟨it.ty, 0⟩), toks with
+      | some _, _ => setup (entryScoped w it.ty 0 false).1 rest toks   -- occupied: the closure does not run
+      | none, t :: toks' => setup (entryScoped w it.ty t false).1 rest toks'
+      | none, [] => setup w rest []   -- no token supplied for the default (the harness always supplies one per item)
+    else setup w rest toks
+
+/-- dropping a whole system-data value -/
+def releaseData (w : World) : List (Option (Nat × Nat)) → World
+  | [] => w
+  | some (h, _) :: rest => releaseData (release w h) rest
+  | none :: rest => releaseData w rest
+
+/-- `exec(f)` (l.391): `setup`, `system_data`, run `f` on it (the data is dropped inside) -/
+def exec (w : World) (items : List SdItem) (toks : List Nat) : World × Out :=
+  match sysData (setup w items toks).1 items with
+  | (w2, .data fs) => (releaseData w2 fs, .data fs)
+  | r => r
+
+/-- dropping the world drops every stored value -/
+def dropWorld (w : World) : World :=
+  { w with cells := [], dropped := w.dropped ++ w.cells.map (·.2.token) }
+
+/-! ## histories -/
+
+inductive Op
+  | insert (ty tok : Nat)
+  | insertById (tyArg : Nat) (k : ResId) (tok : Nat)
+  | remove (ty : Nat)
+  | removeById (tyArg : Nat) (k : ResId)
+  | entry (ty tok : Nat) (byValue : Bool)
+  | hasValue (ty : Nat)
+  | hasValueRaw (k : ResId)
+  | getMut (ty : Nat)
+  | getMutRaw (k : ResId)
+  | setup (items : List SdItem) (toks : List Nat)
+  | exec (items : List SdItem) (toks : List Nat)
+  | fetch (ty : Nat)
+  | fetchMut (ty : Nat)
+  | tryFetch (ty : Nat)
+  | tryFetchMut (ty : Nat)
+  | tryFetchById (tyArg : Nat) (k : ResId)
+  | tryFetchMutById (tyArg : Nat) (k : ResId)
+  | systemData (items : List SdItem)
+  | metaNext (tys : List Nat) (idx : Nat) (excl : Bool)
+  | clone (h : Nat)
+  | drop (h : Nat)
+deriving DecidableEq, Repr
+
+/-- takes `&mut self` -/
+def Op.isMut : Op → Bool
+  | .insert .. | .insertById .. | .remove .. | .removeById .. | .entry .. | .getMut .. | .getMutRaw ..
+  | .setup .. | .exec .. => true
+  | _ => false
+
+/-- the tokens an operation may turn into values -/
+def Op.tokens : Op → List Nat
+  | .insert _ t | .insertById _ _ t | .entry _ t _ => [t]
+  | .setup _ ts | .exec _ ts => ts
+  | _ => []
+
+def step (w : World) : Op → World × Out
+  | .insert ty tok => w.insert ty tok
+  | .insertById a k tok => w.insertById a k tok
+  | .remove ty => w.remove ty
+  | .removeById a k => w.removeById a k
+  | .entry ty tok bv => w.entryScoped ty tok bv
+  | .hasValue ty => w.hasValue ty
+  | .hasValueRaw k => w.hasValueRaw k
+  | .getMut ty => w.getMut ty
+  | .getMutRaw k => w.getMutRaw k
+  | .setup items toks => ((w.setup items toks).1, .unit)
+  | .exec items toks => w.exec items toks
+  | .fetch ty => w.fetch ty
+  | .fetchMut ty => w.fetchMut ty
+  | .tryFetch ty => w.tryFetch ty
+  | .tryFetchMut ty => w.tryFetchMut ty
+  | .tryFetchById a k => w.tryFetchById a k
+  | .tryFetchMutById a k => w.tryFetchMutById a k
+  | .systemData items => w.sysData items
+  | .metaNext tys idx x => let r := w.metaNext tys idx x; (r.1, r.2.1)
+  | .clone h => w.cloneGuard h
+  | .drop h => (w.release h, .unit)
+
+/-- the world after a history -/
+def run (w : World) : List Op → World
+  | [] => w
+  | op :: ops => run (w.step op).1 ops
+
+/-- a history Rust's borrow checker admits: every `&mut self` call happens with no live guard -/
+def Legal (w : World) : List Op → Prop
+  | [] => True
+  | op :: ops => (op.isMut = true → w.guards = []) ∧ Legal (w.step op).1 ops
 
 end World
 end Shred
